@@ -75,10 +75,11 @@ def run_shape(prog, nr, nt, nsc, dirbc, threads=2, give_flags=((False, False),))
     # coarse cache + transfers
     if (nr - 1) % 2 == 0 and nt % 2 == 0:
         cg = symdom.coarse_of(S.grid, min(nsc // 2 + 1, (nr + 1) // 2))
-        n0 = len(dom.regions)
-        lvl = symdom.make_level(0, S.grid, S.cache(True, True))
-        opsdom.coarse_cache(prog, dom, lvl, cg)
-        mark("LevelCache(coarse)", n0)
+        for fl in [(True, True)] + list(give_flags):
+            n0 = len(dom.regions)
+            lvl = symdom.make_level(0, S.grid, S.cache(*fl))
+            opsdom.coarse_cache(prog, dom, lvl, cg)
+            mark("LevelCache(coarse)" if fl == (True, True) else "LevelCache(coarse) caches=(%s,%s)" % fl, n0)
         lf = symdom.make_level(0, S.grid)
         lc = symdom.make_level(1, cg)
         io = symdom.make_interpolation(dirbc)
